@@ -228,6 +228,10 @@ def _sarif_doc(doc, entries):
                 "locations": [{"physicalLocation": {"artifactLocation": {"uri": FILES[e["file"]]},
                                                     "region": {"startLine": line, "startColumn": 3, "endLine": line, "endColumn": 8}}}],
             }
+            if e.get("also") == "otherfile":
+                other = "f2" if e["file"] == "f1" else "f1"
+                r["locations"].append({"physicalLocation": {"artifactLocation": {"uri": FILES[other]},
+                                                            "region": {"startLine": line + 50, "startColumn": 3, "endLine": line + 50, "endColumn": 8}}})
             if e["viaIndex"]:
                 r["rule"] = {"index": 0 if e["rule"] == "r1" else 1, "toolComponent": {"index": 0}}
             else:
@@ -280,8 +284,9 @@ def check_docs(chk: Check) -> None:
         ((L, (ix("RESOLVED", True, "r1", "f1"),)), A),
         ((L, (ix("OPEN", True, "r1", "f1"), ix("OPEN", True, "r2", "f1"))), ("null", ())),
     ]
-    sarif_entries = [{"rule": r, "file": f, "viaIndex": v} for r in ("r1", "r2") for f in ("f1", "f2") for v in (False, True)]
-    res_seqs = [()] + [(a,) for a in range(1, 9)] + [(a, b) for a in range(1, 9) for b in range(1, 9)]
+    sarif_entries = [{"rule": r, "file": f, "viaIndex": v, "also": a} for a in ("none", "otherfile") for r in ("r1", "r2") for f in ("f1", "f2") for v in (False, True)]
+    ne = len(sarif_entries)
+    res_seqs = [()] + [(a,) for a in range(1, ne + 1)] + [(a, b) for a in range(1, ne + 1) for b in range(1, ne + 1)]
     sarif_docs = set()
     for tool in ("semgrep", "codeql", "other"):
         for rs_ in res_seqs:
